@@ -99,6 +99,21 @@ Theorem c19_any_allocation_of_an_operation : forall L, 1 <= L -> forall st s t k
 Proof. exact fault_top_any. Qed.
 Print Assumptions c19_any_allocation_of_an_operation.
 
+(* an operation that throws by itself after building temporaries (the shape of every failing constructor, set, +=,
+   conversion, decode or format call: C18) under a fault schedule: if a temporary cannot be allocated, bad_alloc is
+   what reaches the caller, with the same guarantees; otherwise the operation's own exception does *)
+Theorem c19_failing_operation_under_a_schedule : forall L, 1 <= L -> forall st s temps e k,
+  Inv L st -> Rel st s -> top_wf s (TThrowing temps e) ->
+  exists stf, run_top L (TThrowing temps e) st = (Throw e, stf) /\ Inv L stf /\ Rel stf s /\ nb st <= nb stf /\
+    (nb stf - nb st <= k ->
+       run_top L (TThrowing temps e) (with_fail st (Some k)) = (Throw e, with_fail stf (Some (k - (nb stf - nb st))))) /\
+    (k < nb stf - nb st ->
+       exists st', run_top L (TThrowing temps e) (with_fail st (Some k)) = (Throw BadAlloc, st') /\ Inv L st' /\
+         (forall x r, user_slot x -> objs st x = Some r -> objs st' x = Some r /\ contents st' r = contents st r) /\
+         (forall j, j < scratch_slots -> objs st' (scratch_base + j) = None)).
+Proof. exact fault_top_throwing. Qed.
+Print Assumptions c19_failing_operation_under_a_schedule.
+
 (* string_stream growth: `new` comes first, so a failing growth leaves the stream exactly as it was *)
 Theorem c19_stream_append : forall STK, 1 <= STK -> forall st o r d,
   SInv STK st -> sobjs st o = Some r -> s_alloc r < s_size r + length d ->
